@@ -271,7 +271,7 @@ def _(c):
 # C18, matcher half, the part of the parser within the verifier's reach: the bracket / separator scanners raise nothing but RuntimeError
 @contract('core.matcher._is_letter')
 def _(c):
-    c.prop('C18')
+    c.prop('C18', 'C14')      # C14: the generation letters of a displayed label are exactly the ASCII letters
     c.types(a='str').returns('bool')
     c.requires('len(a) == 1')
     c.ensures('result == ((ord(a) >= 97 and ord(a) <= 122) or (ord(a) >= 65 and ord(a) <= 90))', 'ascii_letters')
@@ -377,7 +377,7 @@ def _(c):
 def _(c):
     """an object id with optional generation letters: the backwards scan over the letters stays inside the text (no IndexError for `a`, `ZZ`, ``),
     the generation text handed on consists of letters only, nothing but RuntimeError is raised"""
-    c.prop('C18')
+    c.prop('C18', 'C14')
     c.types(text='str').returns(M_)
     c.raises('RuntimeError', when=None, exact=False)
     c.ensures('fresh(result)')
